@@ -122,8 +122,10 @@ def task(item):
     return out
 
 
-GRAPHS = {'quick': {'UnitSquare': 3, 'PiSquare': 2, 'LShape': 2, 'Circle': 3, 'LShapeDriver': 1, 'UnitSquare2': 1, 'Circle2': 1},
-          'thorough': {'UnitSquare': 3, 'PiSquare': 3, 'LShape': 2, 'Circle': 3, 'LShapeDriver': 2, 'UnitSquare2': 2, 'Circle2': 2, 'LShape2': 1}}
+GRAPHS = {'quick': {'UnitSquare': 3, 'PiSquare': 2, 'LShape': 2, 'Circle': 3, 'LShapeDriver': 1, 'UnitSquare2': 1, 'Circle2': 1,
+                    'UnitSquareT': 1, 'CircleT': 1, 'UnitSquareX': 1},  # custom non-uniform tensor grids
+          'thorough': {'UnitSquare': 3, 'PiSquare': 3, 'LShape': 2, 'Circle': 3, 'LShapeDriver': 2, 'UnitSquare2': 2, 'Circle2': 2, 'LShape2': 1,
+                       'UnitSquareT': 2, 'CircleT': 2, 'UnitSquareX': 2}}
 
 
 def run(ctx):
